@@ -62,17 +62,24 @@ func (p *pp) Print(args ...interface{}) {
 	defer p.buf.SetMode(p.buf.GetMode())
 	np := newPrinter()
 	np.buf = p.buf
+	defer p.finishNested(np)
 	np.doPrint(args)
-	p.buf = np.buf
-	np.buf = buffer{}
-	np.free()
 }
 
 func (p *pp) Printf(format string, arg ...interface{}) {
 	defer p.buf.SetMode(p.buf.GetMode())
 	np := newPrinter()
 	np.buf = p.buf
+	defer p.finishNested(np)
 	np.doPrintf(format, arg)
+}
+
+// finishNested takes back the buffer lent to the nested printer np.
+// It is deferred, so that the buffer is also handed back when a panic
+// unwinds through the nested printer: the caller (or a catchPanic
+// further up) may keep writing to p, and np has already modified the
+// shared bytes.
+func (p *pp) finishNested(np *pp) {
 	p.buf = np.buf
 	np.buf = buffer{}
 	np.free()
